@@ -65,7 +65,7 @@ EXTRA = [
     ("E24", E24, None, ""), ("F32", F32, None, ""), ("inner2", INNER2, None, ""), ("anon", ANON, None, "anon"),
     ("uni", UNI, None, ""), ("void", ["void"], None, ""),
     ("pptr", ["ptr", ["ptr", U8]], None, ""), ("ptr[2]", arr(["ptr", U8], 2), None, ""), ("charptr", ["ptr", CHAR], None, ""),
-    ("u32[0]", arr(U32, 0), None, ""), ("u64[1]", arr(U64, 1), None, ""), ("u48[2]", arr(U48, 2), None, ""),
+    ("u32[0]", arr(U32, 0), None, ""), ("u64[1]", arr(U64, 1), None, ""), ("u48[2]", arr(U48, 2), None, ""), ("i48[2]", arr(I48, 2), None, ""),
     ("F[2]", arr(F8, 2), None, ""), ("E24[2]", arr(E24, 2), None, ""), ("F32[2]", arr(F32, 2), None, ""), ("ES[2]", arr(E8S, 2), None, ""), ("float[2]", arr(["float", "f"], 2), None, ""),
     ("inner[2][2]", arr(arr(INNER, 2), 2), None, ""), ("char[2][2]", arr(arr(CHAR, 2), 2), None, ""),
     ("uleb[2]", arr(["leb", False], 2), None, ""),
@@ -120,6 +120,9 @@ PTR_BYTES = {"uint8": 1, "uint16": 2, "uint32": 4, "uint64": 8}
 CURATED = [
     ("bits-roll", [["a", U16, 3], ["b", U16, 9], ["c", U16, 4], ["d", U8, None], ["e", U32, 8], ["f", U32, 24]]),
     ("bits-switch", [["a", U8, 4], ["b", U16, 4], ["c", U8, 4], ["d", U8, 4]]),
+    ("same-name-arrays", [["a", arr(I48, 2), None], ["b", arr(U48, 2), None], ["c", arr(I48, 1), None]]),
+    ("same-tag-inline-a", [["h", U8, None], ["e", arr(["struct", "entry", [["a", U8, None]], "tag"], 3), None],
+                           ["f", arr(["struct", "entry", [["x", U32, None], ["y", U16, None]], "tag"], 3), None], ["t", U8, None]]),
     ("bits-switch-then-block", [["a", U16, 4], ["b", U8, 4], ["c", U8, 4], ["d", U32, None]]),
     ("bits-exhaust-then-block", [["a", U8, 4], ["b", U8, 4], ["c", U8, 4], ["d", U16, None], ["e", U8, 8], ["f", U8, 1], ["g", U64, None]]),
     ("bits-full-then-same", [["a", U8, 8], ["b", U8, 1], ["c", U32, None]]),
